@@ -10,8 +10,11 @@ import hashlib
 from . import eir
 
 VERIF = os.path.dirname(os.path.dirname(os.path.abspath(__file__)))
-EVIDENCE = os.path.join(VERIF, "evidence")
-REPLAYS = os.path.join(VERIF, "replays")
+# VERIF_OUT redirects evidence/ and replays/ (used when trying seeded changes on a scratch tree, so that the committed
+# evidence of the unchanged tree is never overwritten by such a run)
+_OUT = os.environ.get("VERIF_OUT", VERIF)
+EVIDENCE = os.path.join(_OUT, "evidence")
+REPLAYS = os.path.join(_OUT, "replays")
 KNOWN = os.path.join(VERIF, "known_findings.txt")
 
 
@@ -236,8 +239,9 @@ class Check:
                 "paths_explored": sum(r.paths for r in self.results),
                 "evaluations": len(self.results),
                 "distinct_nontrivial": len(set(r.name for r in self.results)),
-                "rule": "one evaluation = one verification obligation (a set of solver queries over symbolic inputs); "
-                        "distinct = distinct obligation names; all are non-trivial (each poses at least one solver query)",
+                "rule": getattr(self, "rule", None) or
+                        "one evaluation = one verification obligation (a set of solver queries over symbolic inputs; obligations that list "
+                        "queries=0 are ground comparisons of compiler-folded constants and say so); distinct = distinct obligation names",
                 "samples": [{"obligation": r.name, "status": r.status, "queries": r.queries, "wall_s": round(r.wall_s, 2),
                              "sample": r.sample, "detail": r.detail[:200]} for r in self.results[:400]],
                 "exhaustive": False,
